@@ -122,7 +122,7 @@ PROPS = {
         vfiles=["Props/C06"],
         technique="Coq proof: receivers as token automata over device scripts; one link frame = one builder step (induction over the body bytes); the builder step preserves a receiver invariant and never panics on any bytes (uses the C04 totality theorems); resynchronisation holds after ANY prior state (start frames are never continuations); harness loop related to the flat run by a bridge lemma; correspondence on fault scripts",
         level_text="Theorems C06_resync_frames (after ANY receiver state, two back-to-back packets: second intact, first intact or dropped with errors), C06_step_safe_bytes / C06_step_safe_can, "
-                   "C06_usart / C06_serial / C06_can (any sequence of whole link frames, noise and would-block answers, then two packets: no panic, no hang, probe results of the demanded shape, receiver empty).",
+                   "C06_usart / C06_serial / C06_can (any sequence of whole link frames, noise and would-block answers, then two packets: no panic, no hang, probe results of the demanded shape, receiver empty). C06_checker_accepts_model_usart / _serial / _can: the extracted checker provably accepts the model's observation of every such script.",
         level_note=NOTE_COMMON + " Devices are scripts (lists of answers); 'blocking forever' is the explicit outcome Hang of the model; over-reading is observed by the mock devices (spin limit).",
         streams=[dict(RCV, view="view_C06", ok="ok_C06")],
         rule=RULE_RCV,
